@@ -104,6 +104,20 @@ pub fn rename_lit(l: &Lit, suffix: &str, shared: &dyn Fn(&str) -> bool) -> Lit {
     };
     Lit { cond, val: l.val, assumed: l.assumed }
 }
+/// the set of variable names a path-condition literal depends on
+pub fn lit_vars(l: &Lit) -> Vec<String> {
+    match &l.cond {
+        Cond::Cmp(_, a, b) => {
+            let mut v = vars_of(Sym(*a));
+            v.extend(vars_of(Sym(*b)));
+            v.sort();
+            v.dedup();
+            v
+        }
+        Cond::ToUsize(t, _) | Cond::ToUsizeBig(t, _) => vars_of(Sym(*t)),
+        Cond::Bool(_) => vec![],
+    }
+}
 /// the set of variable names a term depends on
 pub fn vars_of(t: Sym) -> Vec<String> {
     let mut seen = std::collections::HashSet::new();
